@@ -12,6 +12,7 @@ func TestCount(t *testing.T) {
 	st := time.Now()
 	n := 0
 	fails := 0
+	skipped := 0
 	var sigT time.Duration
 	for _, ty := range resultTypes {
 		for i, s := range sh.shapes(ty, 3) {
@@ -19,7 +20,16 @@ func TestCount(t *testing.T) {
 				continue
 			}
 			root := fill(s, 0)
+			if !magnitudeOK(root) {
+				skipped++
+				continue
+			}
+			s1 := time.Now()
+			fmt.Println("START", root.Text())
 			v := verdictOf(root)
+			if d := time.Since(s1); d > 50*time.Millisecond {
+				fmt.Println("SLOW", d, root.Text())
+			}
 			n++
 			if v.Fail {
 				fails++
@@ -29,5 +39,5 @@ func TestCount(t *testing.T) {
 			}
 		}
 	}
-	fmt.Println(n, "verdicts in", time.Since(st), time.Since(st)/time.Duration(n), "fails", fails, "sig time", sigT)
+	fmt.Println(n, "verdicts in", time.Since(st), time.Since(st)/time.Duration(n), "fails", fails, "sig time", sigT, "skipped", skipped)
 }
